@@ -10,6 +10,9 @@ for d in sorted(glob.glob(os.path.join(ROOT, "seeded", "*", ""))):
     summ = " ".join(m.get("summary", "").split())
     if len(summ) > 210:
         summ = summ[:207] + "..."
+    if m.get("retired"):
+        print("| %s | %s | retired | patch no longer applies after the serializer fix: commits; same change as C17-seed3 |" % (sid, summ.replace("|", "\\|")))
+        continue
     runs = m.get("checks_run_against_it", {})
     own = runs.get(m["property"], {})
     fv = " ".join((own.get("first_violation") or "").replace("violation: ", "").split())[:120]
